@@ -288,7 +288,36 @@ def more_C15(rep, tier, seed):
     report_k3(rep, "C15", res, direct, [], ["C15"])
 
 
+def check_C10(rep, tier, seed):
+    import k10
+    coq_part(rep, "C10")
+    res = k10.run_k10(tier, seed)
+    rep.correspondences.append("K10 short-circuit terminals on an endless by-value iterator source: termination (timeout), "
+                               "value vs model on a finite prefix, source consumption (exact in sequential mode, bounded in parallel mode)")
+    rep.evaluations += res["total"]
+    rep.traces += res["total"]
+    rep.k10_nontrivial = res["nontrivial"]
+    for k, v in res["dist"].items():
+        rep.count("k10_" + k, v)
+    for s in res["samples"][:3]:
+        rep.sample({"k10": s})
+    for e in res["errors"]:
+        rep.violation("K10 could not run: " + e, {"failing_input_found": False, "theorem_or_correspondence": "K10"})
+    for f in res["fail"][:3]:
+        rep.violation(f["what"], {"failing_input_found": True, "correspondence": "K10", "input": f})
+    if not res["fail"] and res["mismatch"]:
+        for m in res["mismatch"][:3]:
+            rep.violation("find on an endless source returns a value different from the first match",
+                          {"failing_input_found": True, "correspondence": "K10", "input": m})
+    # finite sources, sequential mode: no call beyond the first match (exact call order)
+    r3 = k3_part(rep, tier, seed)
+    finds = {"find", "findix", "first", "firstix", "any", "all"}
+    direct = k3_select(r3, ["seq_order"], lambda m: m.get("term") in finds)
+    report_k3(rep, "C10", r3, direct, [], [])
+
+
 CHECKS = {
+    "C10": check_C10,
     "C01": check_C01, "C02": check_C02, "C03": check_C03, "C04": check_C04, "C05": check_C05,
     "C06": check_C06, "C07": check_C07, "C08": check_C08, "C09": check_C09,
     "C11": check_C11, "C12": check_C12, "C15": check_C15, "C16": check_C16,
@@ -303,6 +332,7 @@ def main(prop, tier, seed, replay):
     rep = Report(prop, tier, seed)
     rep.k1_nontrivial = 0
     rep.k3_nontrivial = 0
+    rep.k10_nontrivial = 0
     if replay:
         rep.notes.append("replay of %s: the check re-runs the recorded case first" % replay)
         os.environ["VERIF_REPLAY"] = replay
@@ -319,6 +349,8 @@ def main(prop, tier, seed, replay):
         rep.nontrivial.add(("k1", i))
     for i in range(rep.k3_nontrivial):
         rep.nontrivial.add(("k3", i))
+    for i in range(rep.k10_nontrivial):
+        rep.nontrivial.add(("k10", i))
     return rep.finish(
         level_text=LEVEL_TEXT.get(prop, "theorems over the Coq model + correspondence runs against /repo"),
         trusted_base=TRUSTED_BASE,
